@@ -1,6 +1,7 @@
 import Fv.Lemmas.SyncRwWakeL2
 /-!
-Wake invariant of the rwlock model: `PW1` (the registered handle of a queued node wakes its owner).
+Wake invariant of the rwlock model: `PW1` (the registered handle of a queued node wakes its owner),
+stack nodes.
 -/
 namespace Fv.Sync.RwLock
 open Fv.Sync
@@ -20,32 +21,5 @@ theorem w1_thr (hi : Inv s) (hw : WInv s) (h : Step cfg s t l s') :
   all_goals (try simp only [myWaiter] at *)
   all_goals (try norm_state)
   all_goals (first | exact c | wg)
-
-set_option maxHeartbeats 32000000 in
-theorem w1_fut (hi : Inv s) (hw : WInv s) (h : Step cfg s t l s') :
-    ∀ f w, (s'.wl.node (.fut f)).linked = true → (s'.wl.node (.fut f)).waiter = some w →
-      Targets s' w (.fut f) := by
-  intro f w
-  have a1 := hi.syncCur t; have a2 := hi.asyncCur t; have a5 := hi.ffOk t
-  have b0 := hw.boc t
-  have b2 := hw.qw t
-  have b3 := hi.futNode f
-  have b4 := hi.phNode t; have b5 := hi.futUnl t; have b6 := hi.phFresh t; have b7 := hi.phStarted t
-  have c := hw.w1 (.fut f) w
-  clear hi hw
-  cases w
-  all_goals (unfold Targets at c ⊢; simp only at c ⊢)
-  all_goals step_cases h
-  all_goals (try simp only [myWaiter] at *)
-  all_goals (try norm_state)
-  all_goals (first | exact c | wg)
-
-theorem w1_step (hi : Inv s) (hw : WInv s) (h : Step cfg s t l s') : PW1 s' := by
-  intro n w hl hwt
-  cases n with
-  | thr u =>
-    have := w1_thr hi hw h u w hl hwt
-    subst this; simp [Targets]
-  | fut f => exact w1_fut hi hw h f w hl hwt
 
 end Fv.Sync.RwLock
